@@ -126,36 +126,80 @@ def install_clock(clock):
 # ---------------------------------------------------------------- S3: files
 
 class _MemFile(object):
+    """A file of the in-memory file system with the usual mode semantics
+    (r, w, a, x, +; text or binary), a position, seek/tell/truncate, and the
+    write fault point."""
+
     def __init__(self, fs, path, mode):
         self.fs = fs
         self.path = path
         self.mode = mode
         self.binary = "b" in mode
         self.closed = False
-        if "w" in mode:
-            fs.files[path] = b"" if self.binary else ""
-            self.buf = None
-        else:
-            if path not in fs.files:
-                raise FileNotFoundError(errno.ENOENT, "No such file (simfs)", path)
-            self.buf = fs.files[path]
+        empty = b"" if self.binary else ""
+        exists = path in fs.files
+        if "x" in mode and exists:
+            raise FileExistsError(errno.EEXIST, "File exists (simfs)", path)
+        if "r" in mode and not exists:
+            raise FileNotFoundError(errno.ENOENT, "No such file (simfs)", path)
+        if "w" in mode or "x" in mode or ("a" in mode and not exists):
+            fs.files[path] = empty
+        self.readable = "r" in mode or "+" in mode
+        self.writable = any(c in mode for c in "wax+")
+        self.append = "a" in mode
+        self.pos = len(fs.files[path]) if self.append else 0
+
+    def _data(self):
+        d = self.fs.files[self.path]
+        if self.binary and isinstance(d, str):
+            d = d.encode("utf-8")
+        elif not self.binary and isinstance(d, bytes):
+            d = d.decode("utf-8", "replace")
+        return d
 
     def write(self, data):
+        if not self.writable:
+            raise OSError(errno.EBADF, "not writable (simfs)", self.path)
         fault = self.fs.take_fault("write", self.path)
+        cur = self._data()
+        if self.append:
+            self.pos = len(cur)
         if fault is not None:
             # torn write: a prefix reaches the disk, then the error surfaces
             cut = len(data) // 2
-            self.fs.files[self.path] = self.fs.files[self.path] + data[:cut]
+            self.fs.files[self.path] = cur[: self.pos] + data[:cut] + cur[self.pos + cut:]
             raise OSError(fault, os.strerror(fault) + " (simfs)", self.path)
-        self.fs.files[self.path] = self.fs.files[self.path] + data
+        self.fs.files[self.path] = cur[: self.pos] + data + cur[self.pos + len(data):]
+        self.pos += len(data)
         self.fs.writes += 1
         return len(data)
 
-    def read(self):
-        return self.buf
+    def read(self, n=-1):
+        if not self.readable:
+            raise OSError(errno.EBADF, "not readable (simfs)", self.path)
+        cur = self._data()
+        out = cur[self.pos:] if n is None or n < 0 else cur[self.pos: self.pos + n]
+        self.pos += len(out)
+        return out
 
     def readlines(self):
-        return self.buf.splitlines(True)
+        return self.read().splitlines(True)
+
+    def seek(self, off, whence=0):
+        base = 0 if whence == 0 else (self.pos if whence == 1 else len(self._data()))
+        self.pos = max(0, base + off)
+        return self.pos
+
+    def tell(self):
+        return self.pos
+
+    def truncate(self, size=None):
+        size = self.pos if size is None else size
+        self.fs.files[self.path] = self._data()[:size]
+        return size
+
+    def flush(self):
+        pass
 
     def close(self):
         self.closed = True
@@ -298,9 +342,58 @@ class LatexmkStub(object):
         return b"simulated latexmk ok\n"
 
 
+class _PathShim(object):
+    """os.path as seen by labella: existence and size questions about simulated
+    files are answered by the in-memory file system, everything else is real."""
+
+    def __init__(self, fs):
+        self._fs = fs
+
+    def __getattr__(self, name):
+        return getattr(os.path, name)
+
+    def exists(self, p):
+        return str(p) in self._fs.files or os.path.exists(p)
+
+    def isfile(self, p):
+        return str(p) in self._fs.files or os.path.isfile(p)
+
+    def getsize(self, p):
+        if str(p) in self._fs.files:
+            return len(self._fs.files[str(p)])
+        return os.path.getsize(p)
+
+
+class _OsShim(object):
+    def __init__(self, fs):
+        self.path = _PathShim(fs)
+        self._fs = fs
+
+    def __getattr__(self, name):
+        return getattr(os, name)
+
+    def remove(self, p):
+        if str(p) in self._fs.files:
+            del self._fs.files[str(p)]
+        else:
+            os.remove(p)
+
+    unlink = remove
+
+
 def install_fs_and_peer(fs, peer):
+    import sys as _sys
+
     import labella.tex as tex
     import labella.timeline as tl
+
+    shim = _OsShim(fs)
+    for name, mod in list(_sys.modules.items()):
+        if (name == "labella" or name.startswith("labella.")) and getattr(mod, "os", None) is os:
+            mod.os = shim
+        if (name == "labella" or name.startswith("labella.")) and mod is not None and "open" not in vars(mod):
+            # any labella module that opens files sees the simulated disk
+            mod.open = fs.open
 
     tl.open = fs.open
     tex.open = fs.open
